@@ -317,13 +317,30 @@ def elemsText (bl : List Nat → Blank) : Nat → List SVal → Bytes
   | k, x :: y :: r => x.text (sub bl (2 * k + 5)) ++ blank1Bytes (bl [2 * k + 6]) ++ elemsText bl (k + 1) (y :: r)
 end
 
+/-- the type letter of a value: of a scalar its type, of `nxA` the type of `A`, of a range the
+    type of its values, of an array 'a' -/
+def SVal.ty : SVal → UInt8
+  | .val t => t.cell.type
+  | .rep _ x => x.ty
+  | .range b _ => b.cell.type
+  | .arr _ _ => Rtosc.ArgVal.tyA
+
+/-- "elements of the same type" ('T' and 'F' count as one type) -/
+def sameTy (a b : UInt8) : Bool := a == b || (a == 84 && b == 70) || (a == 70 && b == 84)
+
+/-- all elements have the type of the first one -/
+def sameTys : List SVal → Bool
+  | [] => true
+  | x :: r => r.all (fun e => sameTy x.ty e.ty)
+
 mutual
-/-- the side conditions on the spellings inside a value (`n` of `nxA` is positive) -/
+/-- the side conditions on the spellings inside a value (`n` of `nxA` is positive, the elements
+    of an array are of one type) -/
 def SVal.wf : SVal → Bool
   | .val t => t.wf
   | .rep n x => decide (1 ≤ n) && x.wf
   | .range b c => b.wf && c.wf
-  | .arr es _ => wfList es
+  | .arr es _ => wfList es && sameTys es
 def wfList : List SVal → Bool
   | [] => true
   | x :: r => x.wf && wfList r
@@ -454,6 +471,12 @@ def itemType : Item → UInt8
   | .rep _ _ => Rtosc.ArgVal.tyA
   | .range _ _ s => s.type
 
+/-- the element type of an array with these elements: the type of the last one, `' '` for none -/
+def lastItemTy (its : List Item) : UInt8 :=
+  match its.getLast? with
+  | some x => itemType x
+  | none => 32
+
 mutual
 /-- one value that is not a range: the item and the left neighbour it provides -/
 def SVal.denote1 : SVal → Option (Item × Option Cell)
@@ -462,14 +485,14 @@ def SVal.denote1 : SVal → Option (Item × Option Cell)
   | .rep n (.arr es opn) =>
     if 1 ≤ n ∧ n ≤ 2147483647 then
       match denoteElems opn none es with
-      | some its => some (.rep n (.arr (match its.getLast? with | some x => itemType x | none => 32) its), none)
+      | some its => some (.rep n (.arr (lastItemTy its) its), none)
       | none => none
     else none
   | .rep _ _ => none                                  -- no ranges of ranges
   | .range _ _ => none                                -- handled by `denoteElems`
   | .arr es opn =>
     match denoteElems opn none es with
-    | some its => some (.arr (match its.getLast? with | some x => itemType x | none => 32) its, none)
+    | some its => some (.arr (lastItemTy its) its, none)
     | none => none
 /-- the values of a sentence / the elements of an array, left to right; `prev`: the value to
     the left; `opn`: "..." follows the last one -/
